@@ -10,6 +10,8 @@
 (*   gt_lines/py_lines executed / reported lines of the module               *)
 (*   gt_out / py_out   <<line, <<truth values taken>>>> per deciding line    *)
 (*   gt_njumps/py_npreds  <<line, number of conditional jumps / predicates>> *)
+(*   py_*_after, merged_lines  the same results re-read after the suite-level *)
+(*                     analysis (analyze_results) of all executions           *)
 (***************************************************************************)
 EXTENDS Naturals, Sequences, FiniteSets, TLC, TLCExt, Json, IOUtils
 
@@ -29,7 +31,16 @@ BehaviourPreserved == (On /\ cur.ok) => cur.py = cur.gt
 (* C02 *)
 ReportedLinesExact == (On /\ cur.ok /\ cur.has_line) => SetOf(cur.py_lines) = SetOf(cur.gt_lines)
 NoForeignLines == (On /\ cur.ok /\ cur.has_line) => SetOf(cur.py_lines) \subseteq SetOf(cur.module_lines)
+SuiteAnalysisKeepsLines == (On /\ cur.ok /\ cur.has_line) => SetOf(cur.py_lines_after) = SetOf(cur.py_lines)
+MergedLinesAreUnion == (On /\ cur.ok /\ cur.has_line) =>
+    SetOf(cur.merged_lines) = UNION {SetOf(Traces[tid].ev[i].py_lines) : i \in 1..Len(Traces[tid].ev)}
 (* C03 *)
 BranchOutcomesExact == (On /\ cur.ok /\ cur.has_branch) => SetOf(cur.py_out) = SetOf(cur.gt_out)
 PredicatesRegistered == (On /\ cur.ok /\ cur.has_branch) => SetOf(cur.py_npreds) = SetOf(cur.gt_njumps)
+SuiteAnalysisKeepsOutcomes == (On /\ cur.ok /\ cur.has_branch) => SetOf(cur.py_out_after) = SetOf(cur.py_out)
+(* C05: after exceptions raised and caught inside the subject, recording continues *)
+(* (executions in which the interpreter raised an exception inside the module, RAISE event)  *)
+RecordingContinuesLines == (On /\ cur.ok /\ cur.has_line /\ cur.gt_raised) => SetOf(cur.py_lines) = SetOf(cur.gt_lines)
+RecordingContinuesOutcomes == (On /\ cur.ok /\ cur.has_branch /\ cur.gt_raised) => SetOf(cur.py_out) = SetOf(cur.gt_out)
+EnabledRestored == (On /\ cur.ok) => cur.enabled_after
 =============================================================================
